@@ -677,6 +677,7 @@ func runC15(c *Ctx) {
 			c.Undecided("core/vm#ReadBits-sites", token.NoPos, "no math.ReadBits call found in core/vm (Memory.Set32 is expected)")
 		}
 	}
+	c15RoundE(c, c.W)
 }
 
 // stack operations of one call
@@ -1210,5 +1211,89 @@ func c15Variants() []Variant {
 		{Name: "add-puts-stack-item", File: ins, Old: "	math.U256(y.Add(x, y))\n\n	interpreter.intPool.put(x)", New: "	math.U256(y.Add(x, y))\n\n	interpreter.intPool.put(x, y)", Rule: "C15.X3", Construct: "opAdd"},
 		{Name: "balance-pushed-itself", File: ins, Old: "	slot.Set(interpreter.evm.StateDB.GetBalance(common.BigToAddress(slot)))", New: "	stack.pop()\n	stack.push(interpreter.evm.StateDB.GetBalance(common.BigToAddress(slot)))", Rule: "C15.X3", Construct: "opBalance"},
 		{Name: "add-without-reduction", File: ins, Old: "	x, y := stack.pop(), stack.peek()\n	math.U256(y.Add(x, y))\n", New: "	x, y := stack.pop(), stack.peek()\n	y.Add(x, y)\n", Rule: "C15.X4", Construct: "opAdd"},
+	}
+}
+
+// c15RoundE: X7 (memory fee: the floor applies to one size's square) and X8 (EXP walks every bit of every word).
+func c15RoundE(c *Ctx, w *World) {
+	c.Rule("C15.X7", "SHAPE", "the specified gas: the memory fee is Cmem(new) − Cmem(old) with Cmem(w) = 3w + floor(w²/512), the floor taken for each size separately — in memoryGasCost every division by the quadratic divisor has the square of ONE word count as its dividend (w*w with both factors the same value). Dividing a difference of squares instead under-charges by 1 whenever new² mod 512 < old² mod 512 (memory grown in two steps to 23 words or more)")
+	c.Min(1)
+	{
+		mg := w.Fn("core/vm", "", "memoryGasCost")
+		c.sawFunc(fname(mg))
+		n := 0
+		for _, in := range allInstrs(mg) {
+			bo, ok := in.(*ssa.BinOp)
+			if !ok || bo.Op != token.QUO {
+				continue
+			}
+			if k, isK := constInt(bo.Y); !isK || k != 512 {
+				continue
+			}
+			n++
+			c.sites++
+			sq, isMul := stripConvNoBind(bo.X).(*ssa.BinOp)
+			ok2 := isMul && sq.Op == token.MUL && stripConvNoBind(sq.X) == stripConvNoBind(sq.Y)
+			c.Check(fmt.Sprintf("%s#quadratic-term-%d-floors-one-square", fname(mg), n), bo.Pos(), ok2, ifelse(ok2, "the dividend is the square of one word count", "the dividend of the quadratic term is not the square of a single word count: flooring a difference of squares is not the difference of the floored squares"))
+		}
+		if n == 0 {
+			c.Undecided(fname(mg)+"#quadratic-term", mg.Pos(), "no division by the quadratic coefficient (512) found in memoryGasCost")
+		}
+	}
+
+	c.Rule("C15.X8", "BOUND", "EXP for exponents wider than a machine word: math.Exp squares the base once per BIT POSITION of every exponent word — the loop around base.Mul(base, base) is a counted loop with a constant bound (wordBits), not one that stops when the rest of the word is zero. Stopping early skips the squarings for the leading zero bits of a lower word, so higher words act on the wrong power of the base: 2^(2^64) yields 2 instead of 0")
+	c.Min(1)
+	{
+		ex := w.Fn("common/math", "", "Exp")
+		c.sawFunc(fname(ex))
+		n := 0
+		for _, ci := range callInstrs(ex) {
+			o := calleeObj(ci)
+			if o == nil || o.Name() != "Mul" || o.Pkg() == nil || o.Pkg().Path() != "math/big" {
+				continue
+			}
+			a := callArgs(ci)
+			if len(a) != 2 || stripConvNoBind(a[0]) != stripConvNoBind(a[1]) {
+				continue // not the squaring
+			}
+			var hdr *ssa.BasicBlock
+			for _, b := range ex.Blocks {
+				if isLoopHeader(b) && naturalLoop(b)[ci.Block()] {
+					if hdr == nil || naturalLoop(hdr)[b] {
+						hdr = b
+					}
+				}
+			}
+			n++
+			c.sites++
+			counted := false
+			if hdr != nil {
+				loop := naturalLoop(hdr)
+				for b := range loop {
+					iff, isIf := b.Instrs[len(b.Instrs)-1].(*ssa.If)
+					if !isIf {
+						continue
+					}
+					exits := false
+					for _, sc := range b.Succs {
+						if !loop[sc] {
+							exits = true
+						}
+					}
+					if !exits {
+						continue
+					}
+					if bo, isB := iff.Cond.(*ssa.BinOp); isB && (bo.Op == token.LSS || bo.Op == token.LEQ || bo.Op == token.GTR || bo.Op == token.GEQ) {
+						if k, isK := constInt(bo.Y); isK && (k == 64 || k == 32 || k == 63 || k == 31) {
+							counted = true
+						}
+					}
+				}
+			}
+			c.Check(fmt.Sprintf("%s#squaring-%d-once-per-bit-position", fname(ex), n), ci.Pos(), counted, ifelse(counted, "the squaring sits in a loop counted up to the word size", "the loop around the squaring is not counted up to the word size: the squarings for the leading zero bits of an exponent word are skipped"))
+		}
+		if n == 0 {
+			c.Undecided(fname(ex)+"#squaring", ex.Pos(), "no squaring base.Mul(base, base) found in math.Exp")
+		}
 	}
 }
